@@ -322,7 +322,7 @@ def r11_3(ctx):
         cut = set()
         for eb in errs:
             cut |= {eid for eid, s_, lab in ri.edges(eb)}
-        reached = ri.reachable_from_edges(none_e, cut=cut)
+        reached = C.after_edges(ri, none_e, cut=cut)
         escapes = [bb for bb in reached if ri.term(bb)["k"] == "return" or
                    (ri.term(bb)["k"] == "call" and C.callee_name(ri.term(bb)).endswith("as std::iter::Iterator>::next"))]
         if (errs & reached) and not escapes:
